@@ -57,6 +57,12 @@ def run_one(patch, keep=False, only_prop=None):
         if expect == "silent":
             ok = all(rc == 0 for _, rc, _ in outs)
             msg = "silent" if ok else "FALSE ALARM: " + "; ".join(fired[:3])
+        elif expect == "false-alarm":
+            # a behaviour-preserving change on which a check is known to alarm (documented limit, DESIGN section 16):
+            # kept so that the record is revisited when the analysis learns to discharge it
+            ok = True
+            msg = "recorded false alarm still raised: " + "; ".join(fired[:2]) if any(rc != 0 for _, rc, _ in outs) else \
+                  "recorded as a false alarm but now silent: promote to `expect: silent`"
         elif expect == "missed":
             # a recorded miss (the break lies outside the decided clause): kept so that the record is
             # re-examined if a later rule starts to fire on it
